@@ -255,6 +255,7 @@ type VC struct {
 	entry       *State
 	params      map[string]SV
 	curIns      ssa.Instruction
+	iterPid     map[string]int // database iterator (term) -> key space it walks
 	groupKey    string
 	groupPrefix string
 	valueNames  []string
